@@ -128,10 +128,11 @@ def get_cfg(fn):
 class Policy:
     """decides how crate-local calls are treated"""
 
-    def __init__(self, F, modular=True, inline_depth=8, step_self=False):
+    def __init__(self, F, modular=True, inline_depth=8, step_self=False, inline_loops=False):
         self.F = F
         self.modular = modular
         self.inline_depth = inline_depth
+        self.inline_loops = inline_loops  # loops are summarised (fill / accum / pick), so loop functions can be inlined
         self.step_self = step_self  # keep even self.next(..) delegation as a step node
 
     def decide(self, g, recv_path, depth):
@@ -140,7 +141,7 @@ class Policy:
         is_component_method = g.trait_short in ("Next", "Reset") and recv_path is not None and (len(recv_path) > 1 or self.step_self)
         if is_component_method and self.modular:
             return "step"
-        if cfg.has_loop():
+        if cfg.has_loop() and not self.inline_loops:
             if g.trait_short in ("Next", "Reset") and recv_path is not None:
                 return "step"
             return "ucall"
@@ -165,6 +166,7 @@ class Exec:
         self.ivar_bounds = {}
         self.loop_info = {}
         self.sites = []  # panic sites visited: dicts(fn, block, kind, operands, facts)
+        self.cur_site = (None, None, None, None)
 
     def iter_item(self, st, itv, loopid):
         """item produced by one `Iterator::next` of the iterable value itv, plus its bounds record"""
@@ -464,6 +466,10 @@ class Exec:
                 return ("cmp3", a, b)
             if op == "Offset":
                 raise Unsupported("pointer offset")
+            if op == "Div" and rv.get("operand_ty") == "f64":
+                fn_, blk_, span_, si_ = self.cur_site
+                self.sites.append({"fn": fn_.label, "path": fn_.path, "block": blk_, "stmt": si_, "what": "fdiv", "kind": "Div", "operands": {"num": a, "den": b},
+                                   "facts": dict(st.facts), "span": span_, "root_depth": self.depth})
             return fold(BINOPS[op], a, b)
         if k == "unop":
             a = self.operand(fr, st, rv["a"])
@@ -616,9 +622,10 @@ class Exec:
                 st, b = self.summarize_loop(fr, st, b)
                 continue
             blk = fn.block_by_id[b]
-            for s in blk["stmts"]:
+            for si_, s in enumerate(blk["stmts"]):
                 k = s["k"]
                 if k == "assign":
+                    self.cur_site = (fn, b, s["span"], si_)
                     v = self.rvalue(fr, st, s["rv"])
                     self.write_place(fr, st, s["place"], v)
                 elif k == "set_discriminant":
@@ -847,6 +854,8 @@ class Exec:
         if re.search(r"<impl f64>::min$", n):
             return ("min",) + tuple(sorted([dv[0], dv[1]], key=repr))
         if re.search(r"<impl f64>::sqrt$", n):
+            self.sites.append({"fn": self.cur_fn_label, "path": self.cur_fn_path, "block": None, "what": "sqrt", "kind": "sqrt", "operands": {"arg": dv[0]},
+                               "facts": dict(st.facts), "span": t["span"], "root_depth": self.depth})
             return ("sqrt", dv[0])
         if re.search(r"<impl f64>::is_sign_positive$", n):
             return ("sgnpos", dv[0])
